@@ -97,6 +97,7 @@ type Frame struct {
 	ctr    *Contract
 	entryState *State // state at function entry (for old())
 	loopOrd map[*ssa.BasicBlock]int
+	autoLoops map[int]*LoopSpec // automatic annotations of loops the contract does not mention
 	names  map[string][]nameCand
 	top    bool
 	iters  map[ssa.Value]string // map iterator -> visited state name
@@ -1006,16 +1007,45 @@ func (e *Exec) runBlocks(fr *Frame, order []*ssa.BasicBlock, dryHeader *ssa.Basi
 	}
 }
 
-// enterLoop handles a loop header: checks invariants on entry, havocs, assumes invariants.
-func (e *Exec) enterLoop(fr *Frame, h *ssa.BasicBlock) (*State, string) {
+// loopSpec: the annotations of the loop with header h, or the automatic ones.
+func (e *Exec) loopSpec(fr *Frame, h *ssa.BasicBlock) *LoopSpec {
 	ord := fr.loopOrd[h]
 	var spec *LoopSpec
 	if fr.ctr != nil {
 		spec = fr.ctr.Loops[ord]
 	}
-	if spec == nil {
-		e.unsupported("loop #%d of %s has no invariant", ord, FuncKey(fr.fn))
+	if spec == nil && fr.autoLoops != nil {
+		spec = fr.autoLoops[ord]
 	}
+	if spec == nil {
+		// an unannotated loop is cut with what the engine knows by itself: the frame invariant of the function and, for
+		// range loops, that the number of completed iterations is not negative. Weak but sound: whatever the contract
+		// needs from the loop beyond that then fails as a named obligation instead of a refusal to generate.
+		spec = &LoopSpec{Ordinal: ord}
+		for _, ins := range h.Instrs {
+			phi, ok := ins.(*ssa.Phi)
+			if !ok {
+				break
+			}
+			if phi.Comment == "rangeindex" || phi.Comment == "rangeint.iter" {
+				if x, err := ParseExpr("0 <= _n"); err == nil {
+					spec.Invariants = append(spec.Invariants, Clause{Label: "auto-range", Text: "0 <= _n", E: x, Src: "(automatic)"})
+				}
+			}
+		}
+		e.P.Trusted[fmt.Sprintf("note: loop #%d of %s carries no annotation (cut with the automatic invariants only)", ord, FuncKey(fr.fn))] = true
+		if fr.autoLoops == nil {
+			fr.autoLoops = map[int]*LoopSpec{}
+		}
+		fr.autoLoops[ord] = spec
+	}
+	return spec
+}
+
+// enterLoop handles a loop header: checks invariants on entry, havocs, assumes invariants.
+func (e *Exec) enterLoop(fr *Frame, h *ssa.BasicBlock) (*State, string) {
+	ord := fr.loopOrd[h]
+	spec := e.loopSpec(fr, h)
 	var guards []string
 	var states []*State
 	var preds []int
@@ -1310,7 +1340,7 @@ func arrayPartsOK(s Sort) (Sort, bool, Sort) {
 // backEdge checks that the invariants are preserved along p->h.
 func (e *Exec) backEdge(fr *Frame, p, h *ssa.BasicBlock) {
 	ord := fr.loopOrd[h]
-	spec := fr.ctr.Loops[ord]
+	spec := e.loopSpec(fr, h)
 	g := e.edgeGuard(fr, p, h)
 	// bind phis to the back-edge values
 	saved := map[*ssa.Phi]Val{}
